@@ -194,6 +194,63 @@ func c18Worker(maxLen int, thorough bool) int {
 			}
 		}
 	}
+	// adversarial data for the SWAR / mask arithmetic: bytes adjacent to the needles (needle^1, needle±1, needle|0x80), the
+	// needles themselves in the wrong order, zero and 0xff, at every length and both placements, several draws per length;
+	// borrow propagation in the zero-byte trick and AND-ed candidate masks only go wrong on such neighbours
+	adv := NewRNG(0xC18)
+	const n1, n2 = byte('f'), byte('x')
+	alpha := []byte{n1, n1 ^ 1, n1 - 1, n1 + 1, n1 | 0x80, n2, n2 ^ 1, n2 - 1, n2 + 1, n2 | 0x80, 0, 0xff, '.', '.', '.', '.'}
+	draws := 6
+	if thorough {
+		draws = 40
+	}
+	for ln := 0; ln <= maxLen; ln++ {
+		for d := 0; d < draws; d++ {
+			data := make([]byte, ln)
+			for i := range data {
+				data[i] = alpha[adv.Intn(len(alpha))]
+			}
+			for _, atEnd := range []bool{true, false} {
+				h := g.place(data, atEnd)
+				chk := func(name string, got, want int) {
+					n++
+					if got != want {
+						mism++
+						fmt.Fprintf(w, "MISMATCH %s adversarial data=%s atEnd=%v got=%d want=%d\n", name, hexOf(h), atEnd, got, want)
+					}
+				}
+				chk("Memchr", simd.Memchr(h, n1), naiveIdx(h, func(b byte) bool { return b == n1 }))
+				chk("Memchr2", simd.Memchr2(h, n1, n2), naiveIdx(h, func(b byte) bool { return b == n1 || b == n2 }))
+				chk("Memchr3", simd.Memchr3(h, n1, n2, 0), naiveIdx(h, func(b byte) bool { return b == n1 || b == n2 || b == 0 }))
+				for off := 1; off <= 4; off++ {
+					for _, pr := range [][2]byte{{n1, n2}, {n2, n1}, {n1, n1}, {0, 0xff}} {
+						want := -1
+						for i := 0; i+off < len(h); i++ {
+							if h[i] == pr[0] && h[i+off] == pr[1] {
+								want = i
+								break
+							}
+						}
+						chk("MemchrPair", simd.MemchrPair(h, pr[0], pr[1], off), want)
+					}
+				}
+				for _, needle := range [][]byte{{n1, n2}, {n1, n1 ^ 1, n2}, {n2, n1, n1}, {n1, '.', n2, '.'}} {
+					chk("Memmem", simd.Memmem(h, needle), bytes.Index(h, needle))
+				}
+				asc := 0
+				if simd.IsASCII(h) {
+					asc = 1
+				}
+				wa := 1
+				fn := naiveIdx(h, func(b byte) bool { return b >= 0x80 })
+				if fn >= 0 {
+					wa = 0
+				}
+				chk("IsASCII", asc, wa)
+				chk("FirstNonASCII", simd.FirstNonASCII(h), fn)
+			}
+		}
+	}
 	fmt.Fprintf(w, "DONE %d %d\n", n, mism)
 	return 0
 }
